@@ -29,8 +29,10 @@ def run_check(prop_id, tier):
     runner.bind()
     if hasattr(mod, 'prepare'):
         mod.prepare(tier)
-    shards = mod.shards(tier)
-    total = runner.pmap(mod.__name__, shards)
+    if hasattr(mod, 'explore'):
+        total = mod.explore(tier)
+    else:
+        total = runner.pmap(mod.__name__, mod.shards(tier))
     if hasattr(mod, 'extra_phase'):
         mod.extra_phase(tier, total)
     cov = mod.coverage(tier, total)
